@@ -202,6 +202,12 @@ func Load(repo, goarch string) (*Ctx, error) {
 					msg = errs2[0]
 				}
 				c.ExpandNotes = append(c.ExpandNotes, fmt.Sprintf("helper expansion abandoned in round %d (the expanded program does not type-check: %s)", pass, msg))
+				if d := os.Getenv("FRUGALVET_DUMP_EXPAND"); d != "" {
+					_ = os.MkdirAll(d, 0o755)
+					for k, v := range next {
+						_ = os.WriteFile(d+"/FAILED_"+strings.ReplaceAll(strings.TrimPrefix(k, repo+"/"), "/", "_"), v, 0o644)
+					}
+				}
 				break
 			}
 			pkgs, by, mod, overlay = pkgs2, by2, mod2, next
